@@ -1278,7 +1278,12 @@ func (s *Session) closeWithError(err error) error {
 	} else {
 		log.Debugf("Closing %v with error %v", s, err)
 	}
-	if s.isState(sessionAttached) || s.isState(sessionEstablished) {
+	// A client session that never sent its openSessionRequest is unknown to the
+	// server. Don't send a closeSessionRequest for it: as the first segment of a
+	// stream underlay it is a protocol error that makes the server close the
+	// connection, together with all the other sessions that share it.
+	peerKnowsSession := !s.isClient || s.openSessionRequestSent.Load()
+	if peerKnowsSession && (s.isState(sessionAttached) || s.isState(sessionEstablished)) {
 		// Send closeSessionRequest, but don't wait for closeSessionResponse,
 		// because the underlay connection may be already broken.
 		s.oLock.Lock()
